@@ -27,6 +27,7 @@ func TestMain(m *testing.M) {
 		Rule: "rapid-generated block trees (<=4/8 branches, per-branch block pace drawn from {1..3000}s so that shorter-but-heavier and longer-but-lighter branches occur; configurations steep/nofork/test/all-at-0) " +
 			"delivered in a generated parent-closed order cut into linked batches, on archive and pruning nodes, with generated restarts; after every InsertChain the TD table, the head's maximality, TD monotonicity and CurrentHeader are judged against a big-integer model. " +
 			"A further leg delivers two sibling blocks of different weight concurrently through the node's two import paths (InsertChain for a peer's block, WriteBlockWithState for the miner's own), 20-40 heights per case: the head must end on the heavier one under every interleaving. " +
+			"A header leg (TestHeadersAndBlocksMixed) announces some batches by InsertHeaderChain before their blocks and delivers others as blocks only: header imports never move the block head nor lower the header head's TD, the header head is at least as heavy as every header of the call and, after block imports, as the block head (non-trivial there = lighter side headers imported after blocks moved the head). " +
 			"non-trivial = a history in which the head moved to a different branch at least once; distinct by hash of tree shape+difficulties+delivery order",
 		Assumptions: []string{
 			"fake-PoW engine (aquahash.NewFaker): every header rule is enforced, only the seal is skipped",
@@ -43,6 +44,16 @@ type nodeView struct {
 }
 
 func checkAfter(t *rapid.T, n *gen.Node, tr *gen.Tree, delivered []*gen.TNode, prevHeadTD *big.Int, step string) *big.Int {
+	td := checkBlocks(t, n, tr, delivered, prevHeadTD, step)
+	// (iv) header head is the block head after full imports
+	if n.Chain.CurrentHeader().Hash() != n.Chain.CurrentBlock().Hash() {
+		t.Fatalf("%s: CurrentHeader %x differs from CurrentBlock %x", step, n.Chain.CurrentHeader().Hash(), n.Chain.CurrentBlock().Hash())
+	}
+	return td
+}
+
+// checkBlocks: judgements (i)-(iii), which also hold when headers were imported ahead of blocks.
+func checkBlocks(t *rapid.T, n *gen.Node, tr *gen.Tree, delivered []*gen.TNode, prevHeadTD *big.Int, step string) *big.Int {
 	bc := n.Chain
 	head := bc.CurrentBlock()
 	hn := tr.ByHash[head.Hash()]
@@ -73,10 +84,6 @@ func checkAfter(t *rapid.T, n *gen.Node, tr *gen.Tree, delivered []*gen.TNode, p
 	// (iii) the head's TD never decreases
 	if prevHeadTD != nil && hn.TD.Cmp(prevHeadTD) < 0 {
 		t.Fatalf("%s: head total difficulty decreased from %v to %v", step, prevHeadTD, hn.TD)
-	}
-	// (iv) header head is the block head after full imports
-	if bc.CurrentHeader().Hash() != head.Hash() {
-		t.Fatalf("%s: CurrentHeader %x differs from CurrentBlock %x", step, bc.CurrentHeader().Hash(), head.Hash())
 	}
 	return hn.TD
 }
